@@ -582,6 +582,59 @@ pub fn run(ctx: &mut Ctx) {
             ctx.violation("panic", &format!("panic:{}", msg.rsplit(" @ ").next().unwrap_or("").replace("/repo/", "")), wl, case, json!({"panic": msg}));
         }
     }
+    // ---- primal-dual scaling for pairs that are NOT nearly complementary, the dual point anywhere down to a relative
+    // distance of 1e-13 from the boundary of K* (dual Hessian conditioned beyond 1e16).  All
+    // that is asked there is what survives any amount of rounding in a sum of positive semidefinite terms: a
+    // symmetric matrix with a positive diagonal (a necessary condition of "positive definite" that needs no
+    // eigenvalue computation) - or a declined scaling.  Cheap, so there are many of them.
+    let wl = "near_boundary_scaling";
+    let total = if ctx.flavour == "miri" { 0 } else { ctx.count(200000, 2000000) };
+    for case in ctx.cases(wl, total) {
+        if ctx.out_of_budget() {
+            continue;
+        }
+        if case % 4096 == 0 {
+            ctx.begin(wl, case);
+        }
+        let mut rng = Rng::for_case(ctx.seed, "C14/near_boundary_scaling", case);
+        let k = if rng.bool(0.5) { K::Exp } else { K::Pow(*rng.choose(&[0.5, 0.3, 0.8, 0.1, 0.95])) };
+        let ct = k.cone_t();
+        // (log-uniform depths: the dual point anywhere between the boundary and the middle of the cone, the slack
+        // between 1e-6 and 10)
+        let depth = 10f64.powf(rng.range(-13.0, 0.0));
+        let (magz, mags) = (rng.logpos(-3.0, 3.0), rng.logpos(-3.0, 3.0));
+        let z = vc::sample_interior(&ct, &mut rng, true, magz, depth);
+        let ds = 10f64.powf(rng.range(-6.0, 1.0));
+        let sv = vc::sample_interior(&ct, &mut rng, false, mags, ds);
+        let mut obj = Obj::new(&k);
+        if !(obj.is_dual_feasible(&z) && obj.is_primal_feasible(&sv)) {
+            ctx.bump("near_boundary_points_not_interior_for_the_implementation");
+            continue;
+        }
+        let mu = vkit::dd::dot(&sv, &z).f() / 3.0;
+        let ok = match vkit::report::catch(std::panic::AssertUnwindSafe(|| obj.update_scaling(&sv, &z, mu, ScalingStrategy::PrimalDual))) {
+            Ok(b) => b,
+            Err(msg) => {
+                ctx.violation("panic", &format!("panic:{}", msg.rsplit(" @ ").next().unwrap_or("").replace("/repo/", "")), wl, case, json!({"panic": msg, "s": sv, "z": z}));
+                continue;
+            }
+        };
+        ctx.eval(1);
+        ctx.nontrivial_n(1);
+        if !ok {
+            ctx.bump("near_boundary_scalings_declined");
+            continue;
+        }
+        let st = obj.state();
+        let n = 3;
+        let hs = &st.hs;
+        let name = k.name();
+        let sym = (0..n).all(|a| (0..n).all(|b| hs[a * n + b].to_bits() == hs[b * n + a].to_bits() || (hs[a * n + b] - hs[b * n + a]).abs() <= 1e-12 * hs[a * n + b].abs()));
+        let posdiag = (0..n).all(|a| hs[a * n + a] > 0.0);
+        if !(sym && posdiag && hs.iter().all(|v| v.is_finite())) {
+            ctx.violation(&format!("{name}:Hs_not_positive_definite"), &format!("{name}:Hs_not_positive_definite:near_boundary"), wl, case, json!({"cone": vkit::problem::cones_json(&[ct.clone()]), "s": sv, "z": z, "relative_depth_of_z": depth, "Hs": hs, "diagonal": [hs[0], hs[4], hs[8]]}));
+        }
+    }
     let wl = "unit_initialization";
     let total = if ctx.flavour == "miri" { ctx.count(6, 20) } else { ctx.count(600, 6000) };
     for case in ctx.cases(wl, total) {
